@@ -319,7 +319,9 @@ def history_independence_problems(M, root, extra=()):
     na = {id(o): i for i, o in enumerate(a)}
     nb = {id(o): i for i, o in enumerate(b)}
     bad = []
-    queries = [(na[id(x)], key) for x, key in all_pairs(M, root)] + [(na[id(x)], key) for x, key in extra]
+    # a target that is not an object of the tree (navigation went through a Base variable with data: BaseType.__getitem__
+    # derives a fresh variable; the model calls that step `outside`) has no twin to compare with
+    queries = [(na[id(x)], key) for x, key in all_pairs(M, root)] + [(na[id(x)], key) for x, key in extra if id(x) in na]
     for i, key in queries:
         ra = found_str(M, do_lookup(a[i], key), lambda r: na.get(id(r)))
         rb = found_str(M, do_lookup(b[i], key), lambda r: nb.get(id(r)))
